@@ -12,7 +12,10 @@ RULE = ("Cases = (bit width b in {1,2,4,8,16,32}, length n covering every residu
         "Python list: unpack() == a; p[i] == a[i]; p[list].unpack() == a[list]; sliding_window(w)[i] == sum(a[i+j] << (b*j)) "
         "for every i in 0..n-w and no entries when n < w.  Non-trivial = n is not a multiple of 64/b, or a window straddles a "
         "64-bit register boundary.")
-ASSUMPTIONS = ["negative positions are refused by the library (OverflowError) and are not part of the property"]
+ASSUMPTIONS = ["negative positions are refused by the library (OverflowError) and are not part of the property",
+               "b and w are Python ints (the documented parameter type) or numpy's 64-bit signed scalars (int64 / intp), which behave like "
+               "Python ints at these magnitudes; narrower numpy scalars (uint8(16), int32(32)) make 2**b wrap in the caller's own type "
+               "before the library sees a usable value and are not claimed"]
 
 WIDTHS = [1, 2, 4, 8, 16, 32]
 
@@ -31,7 +34,12 @@ def pack(case):
     arr = np.array(case["vals"], dtype=case["dt"]) if case["vals"] else np.zeros(0, dtype=case["dt"])
     if case.get("swapped"):
         arr = arr.astype(arr.dtype.newbyteorder())     # same values, non-native byte order
-    return BitArray.pack(arr, case["b"])
+    return BitArray.pack(arr, as_int(case["b"], case.get("b_as", "py")))
+
+
+def as_int(v, how):
+    """the same integer as a Python int or a numpy integer scalar"""
+    return v if how == "py" else np.dtype(how).type(v)
 
 
 def classify(case, ctx):
@@ -97,12 +105,16 @@ def body_window(case, ctx):
     exp = window_expected(a, b, w) if n >= w else []
     ctx.label("w=1" if w == 1 else "w=max" if w == per else "w:mid", "n<w" if n < w else "n>=w")
     ctx.nt(n % per != 0 or (n > per and w > 1))
-    got = lib(lambda: pack(case).sliding_window(w))
+    ctx.label("w-as:" + case.get("w_as", "py"), "b-as:" + case.get("b_as", "py"))
+    got = lib(lambda: pack(case).sliding_window(as_int(w, case.get("w_as", "py"))))
     if not got.ok:
         raise Violation("window:unexpected-refusal", got=got.brief(), w=w)
     v = np.asarray(got.value)
     if v.ndim != 1 or [int(x) for x in v] != exp:
         raise Violation("window:values", w=w, b=b, expected=exp[:40], got=[int(x) for x in v.ravel()[:40]], n=n)
+
+
+INT_AS = st.sampled_from(["py", "py", "py", "int64", "intp"])
 
 
 @st.composite
@@ -121,7 +133,7 @@ def bit_case(draw, tier, need_n=0):
     else:
         e = st.one_of(st.integers(0, top), st.sampled_from([0, top, 1, top >> 1]))
         vals = draw(st.lists(e, min_size=n, max_size=n))
-    return {"b": b, "dt": dt, "vals": vals, "swapped": draw(st.sampled_from([False, False, False, True]))}
+    return {"b": b, "dt": dt, "vals": vals, "swapped": draw(st.sampled_from([False, False, False, True])), "b_as": draw(INT_AS)}
 
 
 @st.composite
@@ -140,6 +152,7 @@ def getitem_case(draw, tier):
 def window_case(draw, tier):
     case = draw(bit_case(tier))
     case["w"] = draw(st.integers(1, 64 // case["b"]))
+    case["w_as"] = draw(INT_AS)
     return case
 
 
